@@ -2314,6 +2314,29 @@ class Evaluator:
                 self.rebind(e.func.value, newv, st)
         return res
 
+    def _single_dispatch(self, fi: FuncInfo, pos, kw):
+        """functools.singledispatch: the overload registered for the type of the first argument (None: `fi` is not a generic function or its own body
+        applies; 'unknown': overloads exist and the argument's type is not known)"""
+        decos = [ast.unparse(d).split('.')[-1] for d in getattr(fi.node, 'decorator_list', [])]
+        if 'singledispatch' not in decos or fi.cls is not None:
+            return None
+        table = {}
+        for other in fi.module.functions.values():
+            for d in getattr(other.node, 'decorator_list', []):
+                if isinstance(d, ast.Call) and isinstance(d.func, ast.Attribute) and d.func.attr == 'register' and isinstance(d.func.value, ast.Name) \
+                        and d.func.value.id == fi.name and len(d.args) == 1:
+                    table[ast.unparse(d.args[0])] = other
+        if not table:
+            return None
+        first = pos[0] if pos else kw.get(fi.params()[0]) if fi.params() else None
+        if isinstance(first, Const) and first.v is None:
+            return table.get('type(None)') or table.get('NoneType') or table.get('types.NoneType')
+        if set(table) <= {'type(None)', 'NoneType', 'types.NoneType'} and isinstance(first, (Num, Tup)) :
+            return None                 # a number / an array is not None: the generic body
+        if isinstance(first, Const) and isinstance(first.v, str):
+            return table.get('str')
+        return 'unknown'
+
     def call(self, fn: Val, pos, kw, star_kw, st, node) -> Val:
         if isinstance(fn, Gam):
             return gamma(fn.pred, self.call(fn.a, pos, kw, star_kw, st, node), self.call(fn.b, pos, kw, star_kw, st, node))
@@ -2325,6 +2348,12 @@ class Evaluator:
         if isinstance(fn, Fn):
             if fn.fkind == 'repo':
                 fi: FuncInfo = fn.ref
+                over = self._single_dispatch(fi, pos, kw)
+                if over == 'unknown':
+                    self.issue(st, node, f"functools.singledispatch on {fi.name}: the type of the first argument is not known")
+                elif over is not None:
+                    fi = over
+                    fn = Fn('repo', fi, self_val=fn.self_val)
                 if self.inline(fi) and self.depth < self.max_depth and not self._recursing(fi):
                     return self._invoke(fi, st, pos, kw, star_kw, fn.self_val, node, raw=getattr(fn, 'raw', False))
                 if getattr(fn, 'raw', False):
